@@ -56,6 +56,8 @@ func (it *Interp) resetPathEnv() {
 	it.budget = it.cfg.budget
 	it.vtime = 0
 	it.noIntr = map[string]int{}
+	it.fsFiles = nil
+	it.openFiles = nil
 }
 
 func (it *Interp) yield(fr *frame) {}
